@@ -14,6 +14,7 @@ import (
 
 	"github.com/lianxiangcloud/linkchain/libs/common"
 	"github.com/lianxiangcloud/linkchain/libs/crypto"
+	"github.com/lianxiangcloud/linkchain/libs/log"
 	"github.com/lianxiangcloud/linkchain/types"
 
 	"verif/sim/kernel"
@@ -255,5 +256,72 @@ func TestLifeRandom(t *testing.T) {
 		if m.StatusMismatch != 0 {
 			t.Errorf("seed %d: %d receipts with a status the model did not expect", seed, m.StatusMismatch)
 		}
+	}
+}
+
+// TestGovernCoefficient: the real Coefficient contract in genesis; the
+// governor changes every coefficient, another account is refused.
+func TestGovernCoefficient(t *testing.T) {
+	simnode.InitGlobals()
+	tape := kernel.NewTape(3)
+	var cb common.Address
+	cb[0] = 0xc5
+	val := simnode.ValKey{Priv: crypto.GenPrivKeyEd25519FromSecret([]byte("c05-gov-val")), Power: 10, CoinBase: cb}
+	gen := txgen.New(tape, txgen.Config{Accounts: 3, Validators: []simnode.ValKey{val}, Kinds: []txgen.Kind{txgen.KTransfer}})
+	for _, isTrie := range []bool{true, false} {
+		spec := &simnode.GenesisSpec{ChainID: "verif-c05-gov", Vals: []simnode.ValKey{val}, Alloc: gen.Alloc(), IsTrie: isTrie, VotePeriod: 3, CoefficientContract: true, Governor: gen.Accts[0].Addr}
+		disk := simdb.NewDisk(t.TempDir())
+		if err := spec.Install(disk); err != nil {
+			t.Fatal(err)
+		}
+		r, err := txgen.OpenReplica("P", spec, disk, simnode.ChainOpts{})
+		if err != nil {
+			t.Fatal(err)
+		}
+		gen.Reset()
+		a0, a1 := gen.Accts[0], gen.Accts[1]
+		n0 := gen.L.Nonce(a0.Addr)
+		_ = n0
+		items := []*txgen.Item{
+			gen.Govern(a0, txgen.GovVotePeriod(2)),
+			gen.Govern(a0, txgen.GovVoteRate(5, 2, 7)),
+			gen.Govern(a0, txgen.GovCalRate(1, 2, 3)),
+			gen.Govern(a0, txgen.GovMaxScore(77)),
+			gen.Govern(a0, txgen.GovUTXOFee(big.NewInt(600000000))),
+			gen.Govern(a1, txgen.GovVotePeriod(9)), // no right
+			gen.Govern(a0, txgen.GovVotePeriod(0)), // refused by the contract
+		}
+		blk, err := r.Step(txgen.BlockSpec{Txs: txgen.Txs(items), Explicit: true, Time: 946684800 + 20})
+		if err != nil {
+			t.Fatal(err)
+		}
+		rs := r.Receipts(blk.Height)
+		for i, rc := range rs {
+			t.Logf("trie=%v tx%d status=%d gas=%d %s", isTrie, i, rc.Status, rc.GasUsed, items[i].Note)
+			want := uint64(types.ReceiptStatusSuccessful)
+			if i >= 5 {
+				want = types.ReceiptStatusFailed
+			}
+			if rc.Status != want {
+				t.Errorf("tx %d: status %d, want %d (%s)", i, rc.Status, want, rc.VMErr)
+			}
+		}
+		st, err := diskState(r, disk, blk.Height)
+		if err != nil {
+			t.Fatal(err)
+		}
+		co := st.GetCoefficient(log.NewNopLogger())
+		t.Logf("coefficient after the block: %+v", co)
+		if co == nil || co.VotePeriod != 2 || co.Nume != 2 || co.Deno != 5 || co.UpperLimit != 7 || co.Srate != 1 || co.MaxScore != 77 || co.UTXOFee.Int64() != 600000000 {
+			t.Fatalf("coefficients not as governed: %+v", co)
+		}
+		if g := r.Chain.App.GetUTXOGas(); g != 600000000 {
+			t.Fatalf("running application reports UTXO gas %d", g)
+		}
+		if _, err := gen.Committed(blk.Height, blk.Data.Txs, rs); err != nil {
+			t.Fatal(err)
+		}
+		// the generator is reused for the second storage mode: forget the ledger's nonces
+		gen = txgen.New(kernel.NewTape(3), txgen.Config{Accounts: 3, Validators: []simnode.ValKey{val}, Kinds: []txgen.Kind{txgen.KTransfer}})
 	}
 }
